@@ -121,8 +121,18 @@ func recursiveCheckAllRelationsTypesHaveRelation(p *parser, item item, namespace
 					relation, t.Namespace)
 			}
 		} else {
-			// Type is a subject set, we need to recursively check if the type has
-			// the required relation.
+			// Type is a subject set. The check engine evaluates the relation on
+			// the namespace of the subject set itself (it does not look at the
+			// subject set's relation), so that namespace must declare it.
+			// Otherwise an accepted configuration fails at check time with
+			// "relation does not exist".
+			if _, ok := p.query().findRelation(t.Namespace, relation); !ok {
+				p.addErr(item, "relation %q was not declared in namespace %q",
+					relation, t.Namespace)
+				continue
+			}
+			// Additionally, we recursively check if the type has the required
+			// relation.
 			recursiveCheckAllRelationsTypesHaveRelation(
 				p, item, t.Namespace, t.Relation, relation, depth-1)
 		}
